@@ -2,7 +2,7 @@
 M5c — `Unlock` / `Close` racing the renew goroutine of one hold (C19), any schedule.
 
 One model step per blocking point / channel operation of `client/client.go` (function bodies pinned
-to the source text in `Props/Pins.lean`):
+to the source text in `Pins/C19.lean`):
 
   renew goroutine   sel      parked in `select` (timer pending)
                     fired    took the `<-t.C` branch; re-checks the stop channel
